@@ -3,13 +3,13 @@
 # into a private directory and check its tie module against it (nothing under /verif/lean is written).
 K=$1; R=${2:-/repo}; TIE2=
 case $K in
-  psi) TOOL=gen_psi.py; VAR=VERIF_GEN_PSI_OUT; GEN=PsiGen; TIE=StmtPsi;;
+  psi) TOOL=gen_psi.py; VAR=VERIF_GEN_PSI_OUT; GEN=PsiGen; TIE=StmtPsi; TIE2="StmtPsiGate StmtPsiApp StmtCapstone";;
   filters) TOOL=gen_filters.py; VAR=VERIF_GEN_FILTERS_OUT; GEN=FiltersGen; TIE=StmtFilters;;
   packet) TOOL=gen_packet.py; VAR=VERIF_GEN_PACKET_OUT; GEN=PacketGen; TIE=StmtPacket;;
   pes) TOOL=gen_pes.py; VAR=VERIF_GEN_PES_OUT; GEN=PesGen; TIE=StmtPes;;
   iters) TOOL=gen_iters.py; VAR=VERIF_GEN_ITERS_OUT; GEN=ItersGen; TIE=StmtIters;;
   pmt) TOOL=gen_pmt.py; VAR=VERIF_GEN_PMT_OUT; GEN=PmtGen; TIE=StmtPmt;;
-  tables) TOOL=gen_tables.py; VAR=VERIF_GEN_TABLES_OUT; GEN=TablesGen; TIE=StmtTables; TIE2=StmtTablesPmt;;
+  tables) TOOL=gen_tables.py; VAR=VERIF_GEN_TABLES_OUT; GEN=TablesGen; TIE=StmtTables; TIE2="StmtTablesPmt StmtCapstone";;
   push) TOOL=gen_push.py; VAR=VERIF_GEN_PUSH_OUT; GEN=PushGen; TIE=StmtPush;;
   *) echo "usage: try_tie.sh psi|filters|packet|pes|iters|pmt|tables|push <repo>"; exit 2;;
 esac
@@ -20,7 +20,15 @@ for f in /verif/lean/.lake/build/lib/lean/Ts.*; do ln -s $f $T/lib/; done
 rm -f $T/lib/Ts/Gen/$GEN.* $T/lib/Ts/Props/Ties/$TIE.*
 env VERIF_REPO=$R $VAR=$T/$GEN.lean python3 /verif/tools/$TOOL 2>$T/err
 if grep -q "could not extract" $T/err; then echo "FALLBACK: $(cat $T/err | cut -c1-200)"; else echo TRANSLATED; fi
-if (cd $T && LEAN_PATH=$T/lib lean -o $T/lib/Ts/Gen/$GEN.olean $GEN.lean) > $T/gen.log 2>&1 && (cd /verif/lean && LEAN_PATH=$T/lib lean -o $T/lib/Ts/Props/Ties/$TIE.olean Ts/Props/Ties/$TIE.lean) > $T/tie.log 2>&1 && { [ -z "$TIE2" ] || { rm -f $T/lib/Ts/Props/Ties/$TIE2.*; (cd /verif/lean && LEAN_PATH=$T/lib lean Ts/Props/Ties/$TIE2.lean) >> $T/tie.log 2>&1; }; }; then
+ok=1
+(cd $T && LEAN_PATH=$T/lib lean -o $T/lib/Ts/Gen/$GEN.olean $GEN.lean) > $T/gen.log 2>&1 || ok=0
+: > $T/tie.log
+for M in $TIE $TIE2; do
+  [ $ok = 1 ] || break
+  rm -f $T/lib/Ts/Props/Ties/$M.*
+  (cd /verif/lean && LEAN_PATH=$T/lib lean -o $T/lib/Ts/Props/Ties/$M.olean Ts/Props/Ties/$M.lean) >> $T/tie.log 2>&1 || ok=0
+done
+if [ $ok = 1 ]; then
   echo TIE-OK
 else
   echo TIE-BROKEN; cat $T/gen.log $T/tie.log 2>/dev/null | grep -h "error" | head -4
